@@ -20,6 +20,7 @@ pub struct Cfg {
     pub replay: Option<String>,
     pub tmpdir: String,
     pub scale: usize,
+    pub user_only: bool,
 }
 
 pub fn all_roots() -> Vec<&'static dyn Root> {
@@ -30,6 +31,32 @@ pub fn all_roots() -> Vec<&'static dyn Root> {
     // stable order independent of sharding of the generated crates
     v.sort_by_key(|r| r.name());
     v
+}
+
+pub fn has_user(t: &Ty) -> bool {
+    let mut s = BTreeSet::new();
+    t.constructors(&mut s);
+    s.iter().any(|c| c.starts_with("user-"))
+}
+
+/// Names of the user definitions occurring in a type.
+pub fn user_defs(t: &Ty, out: &mut BTreeSet<String>) {
+    match t {
+        Ty::Phantom(x) | Ty::Vec(x) | Ty::BoxSlice(x) | Ty::Array(x, _) | Ty::Tuple(x, _) | Ty::Opt(x) | Ty::Range(_, x) | Ty::Bound(x) => user_defs(x, out),
+        Ty::Flow(a, b) => {
+            user_defs(a, out);
+            user_defs(b, out);
+        }
+        Ty::User(u) => {
+            out.insert(format!("{}::{}", u.path, u.name));
+            for v in &u.variants {
+                for f in &v.fields {
+                    user_defs(&f.ty, out);
+                }
+            }
+        }
+        _ => {}
+    }
 }
 
 pub struct RootCtx {
@@ -44,6 +71,7 @@ pub fn my_roots(cfg: &Cfg) -> Vec<RootCtx> {
         .enumerate()
         .filter(|(i, r)| i % cfg.nshards == cfg.shard && cfg.filter.as_ref().map_or(true, |f| r.name().contains(f.as_str())))
         .map(|(_, r)| RootCtx { root: r, name: r.name(), ty: r.ty() })
+        .filter(|rc| !cfg.user_only || has_user(&rc.ty))
         .collect()
 }
 
